@@ -44,7 +44,7 @@ class CSizeof(ast.expr):
 
 
 class CInitList(ast.expr):
-    _fields = ('fields', 'values')
+    _fields = ('fields', 'values', 'ctype')
 
 
 class COmpFor(ast.stmt):
@@ -55,3 +55,8 @@ class COmpFor(ast.stmt):
 class CSeq(ast.expr):
     """comma operator"""
     _fields = ('exprs',)
+
+
+class CStmtExpr(ast.expr):
+    """GNU statement expression ({ ... }) -- glibc's assert()."""
+    _fields = ('body',)
